@@ -518,8 +518,87 @@ PROPS.update({
 def search_failing_input(prop, mismatch, payload):
     """Given an L1 disagreement, look for a concrete input on which the property
     itself fails on the implementation.  Returns True if one was found (and adds it
-    to the payload)."""
+    to the payload).
+
+    Comparison family: a disagreement on a case of the exhaustive matrix (`cmp1/<idx>`, `cmp1all/<idx>`) is turned into
+    a compiled program over the same attribute combination (field type `W`, all values): for C01 / C06 the observed
+    matrices are compared with the model's semantics (= the documented rule, by the theorems), for C02 the coherence laws
+    are checked on the observed results alone."""
+    mode = {'C01': 'cmp', 'C06': 'cmp', 'C02': 'law'}.get(prop)
+    cid = mismatch.get('id', '')
+    fam = cid.split('/')[0]
+    if not mode or fam not in ('cmp1', 'cmp1all'):
+        return False
+    import concurrent.futures as cf
+    idx = int(cid.split('/')[-1])
+    ok, _ = l2.build_pm()
+    if not ok:
+        return False
+    # the same attribute combination, shape and entry point under every set of derived traits (the disagreement may
+    # only become observable when fewer traits are derived), the case itself first
+    combo, shape, ep = idx % 3136, (idx // 3136) % 4, (idx // (3136 * 4)) % 2
+    cands = [(fam, idx)] + [('cmp1all', combo + 3136 * (shape + 4 * (ep + 2 * (mask - 1)))) for mask in range(31, 0, -1)]
+    tried = []
+    with cf.ThreadPoolExecutor(vlib.NPROC) as ex:
+        for res in ex.map(lambda a: _probe(prop, mode, a[0], a[1]), cands):
+            tried.append(res.get('result', 'witness'))
+            if res.get('witness'):
+                payload['what'] = res['what']
+                payload['probe'] = res['witness']
+                return True
+    payload['probe'] = dict(result='no witness among %d probes (same combination under every set of derived traits)' % len(tried),
+                            outcomes={k: tried.count(k) for k in set(tried)})
     return False
+
+
+def _probe(prop, mode, fam, idx):
+    import subprocess
+    gen = subprocess.run([vlib.DRV, 'l2probe', mode, fam, str(idx)], capture_output=True, text=True)
+    if gen.returncode != 0:
+        return dict(result='driver failed')
+    secs = l2._split_sections(gen.stdout)
+    base = f'{vlib.WORK}/replays/{prop}-probe-{fam}-{idx}'
+    open(base + '.rs', 'w').write('\n'.join(secs.get('PROGRAM', [])) + '\n')
+    c = l2.rustc(base + '.rs', base + '.bin')
+    if c.returncode != 0:
+        os.remove(base + '.rs')
+        return dict(result='does not compile')
+    r = subprocess.run([base + '.bin'], capture_output=True, text=True)
+    try:
+        os.remove(base + '.bin')
+    except OSError:
+        pass
+    obs = r.stdout.splitlines()
+    exp = secs.get('EXPECT', [])
+    src = next((l[4:] for l in secs.get('STATS', []) if l.startswith('SRC ')), '')
+    if mode == 'law':
+        rows = {}
+        for line in obs:
+            parts = line.split(' ', 2)
+            if len(parts) >= 2:
+                rows.setdefault('probe:' + parts[0], []).append((parts[1], parts[2] if len(parts) == 3 else ''))
+        bad, _ = l2.law_violations(rows, {'probe:c0': src})
+        if bad:
+            return dict(what='the derived impls of an accepted combination disagree with one another (coherence law violated on compiled code)',
+                        witness=dict(program=base + '.rs', source=src, law=bad[0]['law'], values=(bad[0]['i'], bad[0]['j'], bad[0]['k']),
+                                     observed_rows=bad[0]['rows']))
+        os.remove(base + '.rs')
+        return dict(result='compiles; no law violation observed')
+    want = {'C01': ('eq', 'pcmp', 'cmp'), 'C06': ('hash',)}[prop]
+    ek, okd = {}, {}
+    for l in exp:
+        ek.setdefault((l.split(' ') + ['', ''])[1], []).append(l)
+    for l in obs:
+        okd.setdefault((l.split(' ') + ['', ''])[1], []).append(l)
+    for k in want:
+        if k in ek and k in okd and ek[k] != okd[k]:
+            i = next(i for i in range(max(len(ek[k]), len(okd[k])))
+                     if (ek[k][i:i + 1] or ['']) != (okd[k][i:i + 1] or ['']))
+            return dict(what='compiled code behaves differently from the documented rule on this input',
+                        witness=dict(program=base + '.rs', source=src, row=i, observed=(okd[k][i:i + 1] or ['<missing>'])[0],
+                                     documented=(ek[k][i:i + 1] or ['<missing>'])[0]))
+    os.remove(base + '.rs')
+    return dict(result='compiles; behaves as documented')
 
 
 def replay(prop, path):
